@@ -681,20 +681,20 @@ theorem modeScalar_add2 (a b : K) (s : Nat) (hs : s < 2) : modeScalar (a + b) s 
 
 /-- the summed scalings absorbed into the first diagonal operator with the same sampling dtype, **with its sign** -/
 theorem sumAbsorb_sound (c : K) (dt : Nat) (l : List (Op K (X → K) × Bool)) (s : Nat) (hs : s < 2)
-    (hd : ∀ p ∈ l, okC p.1 = true) :
+    (hd : ∀ p ∈ l, okS p.1 = true) :
     ssum isReal re blocks leaf (sumAbsorb S c dt l).1 s + modeScalar (sumAbsorb S c dt l).2 s • (1 : Matrix X X K) =
       ssum isReal re blocks leaf l s + modeScalar c s • (1 : Matrix X X K) ∧
-    (∀ p ∈ (sumAbsorb S c dt l).1, okC p.1 = true) := by
+    (∀ p ∈ (sumAbsorb S c dt l).1, okS p.1 = true) := by
   induction l with
   | nil => simp [sumAbsorb]
   | cons p ps ih =>
     obtain ⟨o, n⟩ := p
-    have hd' : ∀ p ∈ ps, okC p.1 = true := fun x hx => hd x (by simp [hx])
+    have hd' : ∀ p ∈ ps, okS p.1 = true := fun x hx => hd x (by simp [hx])
     by_cases hc : (isDiag o && dtOf o == dt) = true
     · simp only [sumAbsorb, hc, if_true]
       simp only [Bool.and_eq_true] at hc
       obtain ⟨dm, d, t, dt', rfl⟩ := isDiag_cases o hc.1
-      have ht : t < 4 := by simpa [okC, diagOK, isBlock, isChainOp] using hd (Op.diag dm d t dt', n) (by simp)
+      have ht : t < 4 := by simpa [okS, diagOK, isBlock] using hd (Op.diag dm d t dt', n) (by simp)
       have hz : (msem isReal re blocks leaf).kzero = (0 : K) := rfl
       refine ⟨?_, ?_⟩
       · rw [ssum_cons, ssum_cons, hz, modeScalar_zero2 s hs, zero_smul, add_zero,
@@ -708,7 +708,7 @@ theorem sumAbsorb_sound (c : K) (dt : Nat) (l : List (Op K (X → K) × Bool)) (
       · intro p hp
         simp only [List.mem_cons] at hp
         rcases hp with rfl | hp
-        · simp [diagAdd, okC, diagOK, isBlock, isChainOp]
+        · simp [diagAdd, okS, diagOK, isBlock]
         · exact hd' p hp
     · have hc' : (isDiag o && dtOf o == dt) = false := by simpa using hc
       obtain ⟨ih1, ih2⟩ := ih hd'
@@ -723,28 +723,28 @@ theorem sumAbsorb_sound (c : K) (dt : Nat) (l : List (Op K (X → K) × Bool)) (
 
 
 theorem diagCombineSum_isDiag (a b : Op K (X → K)) (na nb : Bool) (ha : isDiag a = true) (hb : isDiag b = true) :
-    isDiag (diagCombineSum S a b na nb) = true ∧ okC (diagCombineSum S a b na nb) = true := by
+    isDiag (diagCombineSum S a b na nb) = true ∧ okS (diagCombineSum S a b na nb) = true := by
   obtain ⟨dm, d, t, dt, rfl⟩ := isDiag_cases a ha
   obtain ⟨dm2, d2, t2, dt2, rfl⟩ := isDiag_cases b hb
-  simp [diagCombineSum, isDiag, okC, diagOK, isBlock, isChainOp]
+  simp [diagCombineSum, isDiag, okS, diagOK, isBlock]
 
 /-- inner loop of the diagonal merge of SumOperator.simplify: later diagonals with the same sampling dtype are merged into the
     accumulator with their signs; the accumulator's own sign becomes "+" after the first merge -/
 theorem sumAbsorbDiags_sound (dt0 : Nat) (acc : Op K (X → K)) (accneg : Bool) (l : List (Op K (X → K) × Bool)) (s : Nat)
-    (hs : s < 2) (hacc : isDiag acc = true) (hokacc : okC acc = true) (hd : ∀ p ∈ l, okC p.1 = true) :
+    (hs : s < 2) (hacc : isDiag acc = true) (hokacc : okS acc = true) (hd : ∀ p ∈ l, okS p.1 = true) :
     (if (sumAbsorbDiags S dt0 acc accneg l).2.1 then - den S (sumAbsorbDiags S dt0 acc accneg l).1 (1 <<< s)
       else den S (sumAbsorbDiags S dt0 acc accneg l).1 (1 <<< s)) +
         ssum isReal re blocks leaf (sumAbsorbDiags S dt0 acc accneg l).2.2 s =
       (if accneg then - den S acc (1 <<< s) else den S acc (1 <<< s)) + ssum isReal re blocks leaf l s ∧
-    okC (sumAbsorbDiags S dt0 acc accneg l).1 = true ∧
-    (∀ p ∈ (sumAbsorbDiags S dt0 acc accneg l).2.2, okC p.1 = true) := by
+    okS (sumAbsorbDiags S dt0 acc accneg l).1 = true ∧
+    (∀ p ∈ (sumAbsorbDiags S dt0 acc accneg l).2.2, okS p.1 = true) := by
   induction l generalizing acc accneg with
   | nil =>
     refine ⟨?_, hokacc, by simp [sumAbsorbDiags]⟩
     cases accneg <;> simp [sumAbsorbDiags, ssum_nil]
   | cons p ps ih =>
     obtain ⟨o, n⟩ := p
-    have hd' : ∀ p ∈ ps, okC p.1 = true := fun x hx => hd x (by simp [hx])
+    have hd' : ∀ p ∈ ps, okS p.1 = true := fun x hx => hd x (by simp [hx])
     by_cases hc : (isDiag o && dtOf o == dt0) = true
     · simp only [sumAbsorbDiags, hc, if_true]
       simp only [Bool.and_eq_true] at hc
@@ -754,8 +754,8 @@ theorem sumAbsorbDiags_sound (dt0 : Nat) (acc : Op K (X → K)) (accneg : Bool) 
       rw [ih1, ssum_cons]
       obtain ⟨dm, d, t, dt, rfl⟩ := isDiag_cases acc hacc
       obtain ⟨dm2, d2, t2, dt2, rfl⟩ := isDiag_cases o hc.1
-      have ht : t < 4 := by simpa [okC, diagOK, isBlock, isChainOp] using hokacc
-      have ht2 : t2 < 4 := by simpa [okC, diagOK, isBlock, isChainOp] using hd (Op.diag dm2 d2 t2 dt2, n) (by simp)
+      have ht : t < 4 := by simpa [okS, diagOK, isBlock] using hokacc
+      have ht2 : t2 < 4 := by simpa [okS, diagOK, isBlock] using hd (Op.diag dm2 d2 t2 dt2, n) (by simp)
       simp only [Bool.false_eq_true, if_false]
       rw [diagCombineSum_sound isReal re blocks leaf dm dm2 d d2 t t2 dt dt2 accneg n s ht ht2 hs, add_assoc]
     · have hc' : (isDiag o && dtOf o == dt0) = false := by simpa using hc
@@ -771,13 +771,13 @@ theorem sumAbsorbDiags_sound (dt0 : Nat) (acc : Op K (X → K)) (accneg : Bool) 
         · exact ih3 p hp
 
 /-- **diagonal merge of SumOperator.simplify preserves the signed sum** (TIMES and ADJOINT_TIMES) -/
-theorem sumMergeDiags_sound (l : List (Op K (X → K) × Bool)) (s : Nat) (hs : s < 2) (hd : ∀ p ∈ l, okC p.1 = true) :
+theorem sumMergeDiags_sound (l : List (Op K (X → K) × Bool)) (s : Nat) (hs : s < 2) (hd : ∀ p ∈ l, okS p.1 = true) :
     ssum isReal re blocks leaf (sumMergeDiags S l) s = ssum isReal re blocks leaf l s ∧
-    (∀ p ∈ sumMergeDiags S l, okC p.1 = true) := by
+    (∀ p ∈ sumMergeDiags S l, okS p.1 = true) := by
   fun_induction sumMergeDiags S l with
   | case1 => exact ⟨rfl, hd⟩
   | case2 o n rest ho r ih =>
-    have hd' : ∀ p ∈ rest, okC p.1 = true := fun x hx => hd x (by simp [hx])
+    have hd' : ∀ p ∈ rest, okS p.1 = true := fun x hx => hd x (by simp [hx])
     obtain ⟨h1, h2, h3⟩ := sumAbsorbDiags_sound isReal re blocks leaf (dtOf o) o n rest s hs ho (hd (o, n) (by simp)) hd'
     obtain ⟨ih1, ih2⟩ := ih h3
     refine ⟨?_, ?_⟩
@@ -788,7 +788,7 @@ theorem sumMergeDiags_sound (l : List (Op K (X → K) × Bool)) (s : Nat) (hs : 
       · exact h2
       · exact ih2 p hp
   | case3 o n rest ho ih =>
-    have hd' : ∀ p ∈ rest, okC p.1 = true := fun x hx => hd x (by simp [hx])
+    have hd' : ∀ p ∈ rest, okS p.1 = true := fun x hx => hd x (by simp [hx])
     obtain ⟨ih1, ih2⟩ := ih hd'
     refine ⟨?_, ?_⟩
     · rw [ssum_cons, ssum_cons, ih1]
@@ -841,7 +841,7 @@ theorem sumScalings_split (l : List (Op K (X → K) × Bool)) (init : K) (s : Na
 
 /-- **one (domain, target) group of SumOperator.simplify preserves the signed sum** (no block-diagonal operators) -/
 theorem sumProcessGroup_sound (fuel : Nat) (mk : List (Op K (X → K)) → List Bool → Op K (X → K))
-    (opset : List (Op K (X → K) × Bool)) (s : Nat) (hs : s < 2) (hd : ∀ p ∈ opset, okC p.1 = true) :
+    (opset : List (Op K (X → K) × Bool)) (s : Nat) (hs : s < 2) (hd : ∀ p ∈ opset, okS p.1 = true) :
     ssum isReal re blocks leaf (sumProcessGroup S fuel mk opset) s = ssum isReal re blocks leaf opset s := by
   have hs4 : s < 4 := by omega
   simp only [sumProcessGroup]
@@ -851,29 +851,29 @@ theorem sumProcessGroup_sound (fuel : Nat) (mk : List (Op K (X → K)) → List 
   rw [hsplit]
   generalize (opset.filter fun x => isScaling x.1).foldl (sumScalStep S) (msem isReal re blocks leaf).kzero = sc
   generalize commonDtype ((opset.filter fun x => isScaling x.1).map (fun x => dtOf x.1)) = dtype
-  have hfilt : ∀ p ∈ opset.filter (fun x => !isScaling x.1), okC p.1 = true := fun p hp => hd p (List.mem_of_mem_filter hp)
+  have hfilt : ∀ p ∈ opset.filter (fun x => !isScaling x.1), okS p.1 = true := fun p hp => hd p (List.mem_of_mem_filter hp)
   generalize opset.filter (fun x => !isScaling x.1) = others at hfilt ⊢
   have hk : ∀ f : K, (msem isReal re blocks leaf).keq f (msem isReal re blocks leaf).kzero = decide (f = 0) := fun _ => rfl
   -- the list before the merges and its signed sum
-  have key : ∀ (l : List (Op K (X → K) × Bool)) (f : K), (∀ p ∈ l, okC p.1 = true) →
+  have key : ∀ (l : List (Op K (X → K) × Bool)) (f : K), (∀ p ∈ l, okS p.1 = true) →
       ssum isReal re blocks leaf (sumMergeBlocks S fuel mk (sumMergeDiags S
         (if (!decide (f = 0) || l.isEmpty) = true then l ++ [(Op.scaling (firstDom opset) f dtype, false)] else l))) s =
       ssum isReal re blocks leaf l s + modeScalar f s • (1 : Matrix X X K) := by
     intro l f hl
     have hok3 : ∀ p ∈ (if (!decide (f = 0) || l.isEmpty) = true then l ++ [(Op.scaling (firstDom opset) f dtype, false)] else l),
-        okC p.1 = true := by
+        okS p.1 = true := by
       intro p hp
       split at hp
       · simp only [List.mem_append, List.mem_singleton] at hp
         rcases hp with hp | rfl
         · exact hl p hp
-        · simp [okC, diagOK, isBlock, isChainOp]
+        · simp [okS, diagOK, isBlock]
       · exact hl p hp
     obtain ⟨hm1, hm2⟩ := sumMergeDiags_sound isReal re blocks leaf _ s hs hok3
     rw [sumMergeBlocks_noblock isReal re blocks leaf fuel mk _ (fun p hp => by
       have := hm2 p hp
-      simp only [okC, Bool.and_eq_true, Bool.not_eq_true'] at this
-      exact this.1.2), hm1]
+      simp only [okS, Bool.and_eq_true, Bool.not_eq_true'] at this
+      exact this.2), hm1]
     by_cases hc : (!decide (f = 0) || l.isEmpty) = true
     · simp only [hc, if_true]
       rw [ssum_append, ssum_cons, ssum_nil, den_scaling isReal re blocks leaf _ f dtype s hs4]
@@ -1039,7 +1039,7 @@ theorem sumFlatten_sound (ops : List (Op K (X → K))) (neg : List Bool) (s : Na
 /-- **SumOperator.simplify preserves the signed sum** in the two modes a sum advertises (no block-diagonal operators) -/
 theorem sumSimplify_sound (fuel : Nat) (mk : List (Op K (X → K)) → List Bool → Op K (X → K))
     (ops : List (Op K (X → K))) (neg : List Bool) (s : Nat) (hs : s < 2)
-    (hd : ∀ p ∈ sumFlatten ops neg, okC p.1 = true) :
+    (hd : ∀ p ∈ sumFlatten ops neg, okS p.1 = true) :
     ssum isReal re blocks leaf (sumSimplify S fuel mk ops neg) s = ssum isReal re blocks leaf (ops.zip neg) s := by
   simp only [sumSimplify]
   rw [ssum_flatMap, ← sumFlatten_sound isReal re blocks leaf ops neg s]
@@ -1053,7 +1053,7 @@ theorem sumSimplify_sound (fuel : Nat) (mk : List (Op K (X → K)) → List Bool
 /-- **SumOperator.make preserves the action** (TIMES, ADJOINT_TIMES): the result acts as the signed sum of the operands; when a
     single negated operator remains, `-op` is built through `ChainOperator.make` (hypotheses of `mkChainU_sound` on that operator) -/
 theorem mkSumU_sound (hre : ∀ c, isReal c = true → re c = c) (fuel : Nat) (ops : List (Op K (X → K))) (neg : List Bool)
-    (s : Nat) (hs : s < 2) (hd : ∀ p ∈ sumFlatten ops neg, okC p.1 = true)
+    (s : Nat) (hs : s < 2) (hd : ∀ p ∈ sumFlatten ops neg, okS p.1 = true)
     (hsingle : ∀ o, sumSimplify S fuel (mkSumU S fuel) ops neg = [(o, true)] →
       (∀ l, o = Op.chain l → l ≠ []) ∧ (∀ x ∈ chainFlatten [o], okC x = true)) :
     den S (mkSumU S (fuel + 1) ops neg) (1 <<< s) = ssum isReal re blocks leaf (ops.zip neg) s := by
